@@ -31,7 +31,8 @@ func TestMain(m *testing.M) {
 			"DEL, RENAME, ...STORE, FLUSHDB/FLUSHALL, deadlines with clock advances past them followed by reads (lazy expiry). Oracle (differential, history-independence): the server's reported MemoryUsed equals the figure of a fresh server into which the final dataset (read back through TYPE / full read / PEXPIRETIME) "+
 			"was loaded with one canonical write per key; an empty dataset reports 0. The figure itself is never interpreted. A case is one history; non-trivial = it overwrites, grows or shrinks in place, deletes, renames, flushes or expires at least one key; distinct = FNV-64 of the history.",
 		"values are drawn from strings that are not numeric-looking: a numeric-looking string may be stored as int, float or string depending on the command that produced it (finding F-C01-adapttype), and a canonical reload cannot reproduce that typing",
-		"standalone server, noeviction, no memory limit: the figure is observed, not acted upon (C08 covers the decisions)")
+		"standalone server, noeviction, no memory limit: the figure is observed, not acted upon (C08 covers the decisions)",
+		"one case in three keeps an append-only log and restarts from it at drawn steps; one case in three runs under one of the seven max-memory policies with a limit of 400–5000 bytes (observed until dataset and figure are stable)")
 	common.Main(m, rec)
 }
 
